@@ -608,3 +608,89 @@ def rule_T6(ctx):
                             r.finding(hp, "pair:_:" + loc(arm), loc(arm), "catch-all arm of the comparison does not return the caller's false ordering")
     r.floor("explicit comparable type-pair arms", n_arms, 6)
     return r
+
+
+# ------------------------------------------------------------------------------------ T13 / N4
+
+
+def rule_T13(ctx):
+    """The group argument of the token-placing helpers is always the enclosing bracket's *node index* (taken from the group
+    stack), never the nesting depth.  Sibling call sites must agree (Engler-style cross-check, frozen by origin kind)."""
+    from .origin import Deep, Body
+
+    F = ctx.F
+    r = RuleResult("T13", "group-argument agreement: every call that places a token is told the enclosing bracket's node index (from the group stack), not the nesting depth")
+    fns = [f for f in F.fns.values() if f["crate"] == "garnish_lang_compiler" and "::parse::" in f["path"] and f["kind"] != "Closure"]
+    # callee parameter positions with the role: a parameter named under_group
+    role = {}
+    for f in fns:
+        for i, p in enumerate(f.get("params", [])):
+            if p.get("k") == "Binding" and p.get("name") == "under_group":
+                role[f["path"]] = i
+    r.floor("parser helpers taking the enclosing group", len(role), 3)
+    n = 0
+    for f in fns:
+        body = Body(f)
+        for d, c in hirq.calls_in(f["hir"]):
+            if d not in role:
+                continue
+            args = call_args(c)
+            if role[d] >= len(args):
+                continue
+            n += 1
+            a = args[role[d]]
+            kinds = set()
+            for o in body.origins(a):
+                k = o.get("k")
+                if k == "Param":
+                    pn = f["params"][o["index"]].get("name") if o["index"] < len(f.get("params", [])) else "?"
+                    kinds.add("forwarded" if o["index"] == role.get(f["path"], -1) else "param:" + str(pn))
+                elif k == "MethodCall" and o.get("m") in ("get", "last", "first"):
+                    kinds.add("group-stack-entry")
+                elif k == "Call" and "error" in last(callee(o) or ""):
+                    continue  # the diverging error arm of the lookup
+                elif k == "MethodCall" and o.get("m") == "len":
+                    kinds.add("depth(len)")
+                elif k == "Path" and (o.get("def") or "").endswith("::None"):
+                    kinds.add("none")
+                elif k == "Field" or k == "TupleFieldOf":
+                    kinds.add("group-stack-entry")
+                else:
+                    kinds.add("other:" + str(o.get("m") or k))
+            kinds.discard("none")
+            ok = bool(kinds) and kinds <= {"forwarded", "group-stack-entry"}
+            r.examine((f["path"], loc(c)), True, {"caller": last(f["path"]), "callee": last(d), "where": loc(c), "group_argument_from": sorted(kinds)})
+            if not ok:
+                r.finding(f["path"], "group-arg:%s:%s" % (last(d), "/".join(sorted(kinds - {"forwarded", "group-stack-entry"}) or ["unknown"])), loc(c),
+                          "`%s` is told its enclosing group is a value originating from %s; every sibling call passes the bracket's node index taken from the group stack - a depth is compared against node indices when the parent chain is walked, so the token escapes its brackets" % (last(d), sorted(kinds)))
+    r.floor("calls passing the enclosing group", n, 10)
+    return r
+
+
+def rule_N4(ctx):
+    """PartialOrd for SimpleNumber: every arm's ordering comes from `partial_cmp` of the primitive values (so NaN is
+    incomparable and -0.0 equals 0.0); no arm manufactures a total order."""
+    F = ctx.F
+    r = RuleResult("N4", "number ordering is primitive partial_cmp: incomparable floats stay incomparable")
+    cands = [f for f in F.fns.values() if f.get("trait_item") == "core::cmp::PartialOrd::partial_cmp" and f.get("impl_self", "").endswith("::SimpleNumber")]
+    if not cands:
+        r.anchor_missing("impl PartialOrd for SimpleNumber", "partial_cmp not found")
+        return r
+    f = cands[0]
+    n = 0
+    ms = [m for m in walk(f["hir"]) if m.get("k") == "Match" and m.get("src") == "Normal"]
+    for m in ms:
+        for arm in m["arms"]:
+            n += 1
+            body = peel(arm["body"])
+            d = callee(body) if body.get("k") in ("Call", "MethodCall") else None
+            ok = d is not None and last(d) == "partial_cmp" and (d.startswith("core::cmp::PartialOrd::partial_cmp") or "impl" in d)
+            recv_ty = body.get("recv_ty", "") if body.get("k") == "MethodCall" else ""
+            prim = recv_ty.lstrip("&").strip() in ("i32", "f64", "i64", "f32")
+            r.examine((f["path"], loc(arm)), True, {"arm": loc(arm), "ordering_from": last(d) if d else body.get("k"), "on": recv_ty})
+            if not (ok and prim):
+                inner = [last(callee(x) or "") for x in walk(arm["body"]) if x.get("k") in ("Call", "MethodCall")]
+                r.finding(f["path"], "ordering-source:" + "/".join(sorted(set(i for i in inner if i)) or ["?"]), loc(arm),
+                          "an arm of SimpleNumber::partial_cmp does not return the primitive partial_cmp of its operands (calls: %s): a total order such as total_cmp makes NaN comparable and separates -0.0 from 0.0" % sorted(set(inner)))
+    r.floor("arms of SimpleNumber::partial_cmp", n, 4)
+    return r
